@@ -282,6 +282,14 @@ fn check_umad(
             UmadCtor::WithEmptyRate => Umad::new_with_empty_rate(add, empty, del, &probe),
             UmadCtor::WithoutEmpty => Umad::new_without_empty(add, del, &probe),
         };
+        if spec.seed % 3 == 0 {
+            // the mutator VALUE is used once before the checked call, on a parent of another length (an empty
+            // one if the checked parent is not, and vice versa); what the probe generator logged is forgotten
+            let other: Vector<u32> = if len == 0 { (500..507).collect() } else { Vector { genes: Vec::new() } };
+            let mut wr = simcore::SimRng::seeded(spec.seed ^ 0x0a11);
+            let _ = umad.mutate(other, &mut wr);
+            probe.log.borrow_mut().clear();
+        }
         match genome {
             UmadGenome::VectorU32 => {
                 let parent: Vector<u32> = (0..len as u32).collect();
@@ -616,6 +624,8 @@ impl Check for C11 {
             2 if g.chance(1, 60) => {
                 if g.chance(1, 6) {
                     *g.pick(&[65_535usize, 65_536, 65_537, 70_000])
+                } else if g.coin() {
+                    g.log_uniform(13, 100_000)
                 } else {
                     *g.pick(&[31usize, 32, 33, 63, 64, 65, 127, 128, 129, 255, 256, 257, 1023, 1024, 1025, 4096])
                 }
